@@ -59,7 +59,8 @@ vars == <<pre, inp, s, pc>>
 (*  depth unmatched_parentheses (:377)   fence  not complete_verbatim_block*)
 (*  b0    input position of the first character of the buffer              *)
 (*  pos   characters consumed                                              *)
-(*  stmts finished statements as extents <<first, last>> (input positions) *)
+(*  stmts finished statements <<first, last, v>>: extent in input positions, *)
+(*        v = 1 if parse_equation inserts it verbatim (:561), else 0         *)
 (*  err / why   exception class raised, and the reason                     *)
 (***************************************************************************)
 Init0 == [buf |-> <<>>, ls |-> 0, nlb |-> 0, cm |-> FALSE, pend |-> FALSE, depth |-> 0,
@@ -149,7 +150,7 @@ LineEnd(st, e) ==                    \* e = input position of the last character
        [] k = "indent"  -> Fail(base, "IndentationError", "leading-whitespace")
        [] k = "nomatch" -> Fail(base, "ParserError", "not-an-equation")
        [] k = "nolhs"   -> Fail(base, "ParserError", "no-assignable-lhs")
-       [] k = "yield"   -> Reset([base EXCEPT !.stmts = Append(@, <<st.b0, e>>)], e)
+       [] k = "yield"   -> Reset([base EXCEPT !.stmts = Append(@, <<st.b0, e, IF Verbatim(st.buf) THEN 1 ELSE 0>>)], e)
 
 FeedNl(st) == LineEnd([st EXCEPT !.pos = @ + 1], st.pos)
 
@@ -197,15 +198,15 @@ StartComment == CanRead("#") /\ s.err = "none" /\ ~s.cm /\ Take("#", Feed(s, "#"
 SkipComment  == \E c \in Classes \ {"n"} : CanRead(c) /\ s.err = "none" /\ s.cm /\ Take(c, Feed(s, c))
 SkipAfterError == \E c \in Classes : CanRead(c) /\ s.err # "none" /\ Take(c, Step(s, c))
 
-NlCase(k) == CanRead("n") /\ s.err = "none" /\ LineCase(s) = k /\ Take("n", FeedNl(s))
-OpenFence       == NlCase("open")
-CloseBeforeOpen == NlCase("neg")
-Continue        == NlCase("more")
-SkipBlank       == NlCase("blank")
-RejectIndent    == NlCase("indent")
-RejectNoMatch   == NlCase("nomatch")
-RejectNoLhs     == NlCase("nolhs")
-Yield           == NlCase("yield")
+NlStep == CanRead("n") /\ s.err = "none" /\ Take("n", FeedNl(s))
+OpenFence       == LineCase(s) = "open"    /\ NlStep
+CloseBeforeOpen == LineCase(s) = "neg"     /\ NlStep
+Continue        == LineCase(s) = "more"    /\ NlStep
+SkipBlank       == LineCase(s) = "blank"   /\ NlStep
+RejectIndent    == LineCase(s) = "indent"  /\ NlStep
+RejectNoMatch   == LineCase(s) = "nomatch" /\ NlStep
+RejectNoLhs     == LineCase(s) = "nolhs"   /\ NlStep      \* specified (the code yields the statement)
+Yield           == LineCase(s) = "yield"   /\ NlStep
 
 AtEof == pc = "read" /\ Len(inp) >= Len(pre) /\ AdmitEnd(pre, inp)
 End(st) == /\ s' = st
@@ -213,11 +214,11 @@ End(st) == /\ s' = st
            /\ UNCHANGED <<pre, inp>>
 EndAfterError == AtEof /\ s.err # "none" /\ End(s)
 EndLineError  == AtEof /\ s.err = "none" /\ Flush(s).err # "none" /\ End(Flush(s))
-EndFlushed(k) == AtEof /\ s.err = "none" /\ Flush(s).err = "none" /\ EndCase(Flush(s)) = k /\ End(Finish(s))
-EndUnmatched     == EndFlushed("unmatched")
-EndInFence       == EndFlushed("fence")          \* specified (the code returns silently)
-EndInFenceSilent == EndFlushed("fence-silent")   \* what the code does; only with Faithful
-EndOk            == EndFlushed("ok")
+EndFlushed == AtEof /\ s.err = "none" /\ Flush(s).err = "none" /\ End(Finish(s))
+EndUnmatched     == EndCase(Flush(s)) = "unmatched"    /\ EndFlushed
+EndInFence       == EndCase(Flush(s)) = "fence"        /\ EndFlushed   \* specified (the code returns silently)
+EndInFenceSilent == EndCase(Flush(s)) = "fence-silent" /\ EndFlushed   \* what the code does; only with Faithful
+EndOk            == EndCase(Flush(s)) = "ok"           /\ EndFlushed
 
 Next == \/ ReadChar \/ StartComment \/ SkipComment \/ SkipAfterError
         \/ OpenFence \/ CloseBeforeOpen \/ Continue \/ SkipBlank
@@ -249,10 +250,13 @@ Holders(ln) == {k \in 1..Len(s.stmts) : s.stmts[k][1] <= ln[1] /\ ln[2] <= s.stm
 C13_NoSilentDrop == Done => (s.err # "none" \/ \A ln \in Lines : Live(ln) => Cardinality(Holders(ln)) = 1)
 
 (* statement extents are whole lines, in order, disjoint *)
-C13_Extents == \A k \in 1..Len(s.stmts) :
-                  /\ <<s.stmts[k][1], s.stmts[k][2]>> \in {<<a[1], b[2]>> : a \in Lines, b \in Lines}
-                  /\ s.stmts[k][1] <= s.stmts[k][2]
-                  /\ (k > 1 => s.stmts[k - 1][2] < s.stmts[k][1])
+C13_Extents == Done => \A k \in 1..Len(s.stmts) :
+                  LET a == s.stmts[k][1]
+                      b == s.stmts[k][2]
+                  IN /\ 1 <= a /\ a <= b /\ b <= Len(inp)
+                     /\ (a = 1 \/ inp[a - 1] = "n")
+                     /\ (b = Len(inp) \/ inp[b + 1] = "n")
+                     /\ (k > 1 => s.stmts[k - 1][2] < a)
 
 (* what a statement must look like to be able to contribute exactly one equation or verbatim block *)
 VisAt(a, b) == {i \in a..b : ~InComment(i)}
@@ -274,7 +278,7 @@ C14_Independent == (Done /\ s.err = "none") =>
                         LET a == s.stmts[k][1]
                             b == s.stmts[k][2]
                             r == RunSeq(SubSeq(inp, a, b))
-                        IN r.err = "none" /\ r.stmts = <<<<1, b - a + 1>>>>
+                        IN r.err = "none" /\ r.stmts = <<<<1, b - a + 1, s.stmts[k][3]>>>>
 
 (* the step-function form and the run agree (sanity of the re-run used above) *)
 C14_Function == Done => LET r == RunSeq(inp) IN r.err = s.err /\ r.stmts = s.stmts /\ r.why = s.why
